@@ -7,6 +7,24 @@ TRUST = ("Trusted base: the independent reference implementations in /verif/inte
          "the kernel's page protection. amd64 assembly and portable Go only; no arm hardware.")
 
 CHECKS = {
+ "C08": dict(cat="exploration", tech="Go race detector + poisoned quarantine pool + seeded scheduling perturbation at hook sites + hook event log checked offline (FIFO, exactly-once) + in-process deadlock monitor + goroutine census, on the real concurrent Writer and Reader",
+   text="1500 (quick) / 30000 (thorough) pipeline runs in the -race build with the verif hooks on. Race reports are parsed from the detector's logs and de-duplicated; released block buffers are poisoned, quarantined and re-verified (write after release), poison in output is read after release, double releases are recorded; the ordering goroutine's event order is compared with the submit order; output bytes are compared with the sequential Writer's; deadlock and leaks are decided from goroutine states. Interleavings are sampled: the evidence reports the number of distinct ones observed.",
+   ref="6/C08"),
+ "C14": dict(cat="exploration", tech="differential runtime monitoring of the real compressors under real histories (fresh vs reused vs pooled objects, failed calls, related inputs, concurrent pool churn) and of the real Writer across concurrency levels, schedules (perturbation hooks), poisoned pools and Write partitions, in plain and -race builds",
+   text="Block half: every (source, depth, destination size) output of a fresh object is compared byte for byte with the same call after six kinds of history and from the package pools under goroutine churn. Frame half (-race build, poison pool, perturbation): sink bytes for concurrency {1,2,4,16} x 5 partition styles (and ReadFrom x 4 source fragmentation modes) must equal one Write at concurrency 1.",
+   ref="6/C14"),
+ "C15": dict(cat="fault_enumeration", tech="I/O fault enumeration on the real Writer and Reader: a dry run counts the sink / source calls, then every call index fails (persistent and transient; with zero bytes and with a proper prefix / some data); errors are matched with errors.Is against the injected values; fragmenting sources for the independence clause",
+   text="Every sink call index of 5 scripts x 12 configurations and every source call index of every seed frame x 6 reader modes is failed in turn; the first injected error must be returned by Write/ReadFrom/Flush or at the latest by Close, the sink must hold a prefix of the fault-free output, a Reader must never end cleanly and must return an injected error, delivered bytes are a prefix. All four fragmentation modes must decode exactly like a plain source.",
+   ref="6/C15"),
+ "C16": dict(cat="exploration", tech="differential runtime monitoring: dependent-block frames built by an independent encoder (content known by construction, re-validated by the independent parser) decoded by the real Reader in every concurrency / read-buffer mode, assembly and noasm builds",
+   text="1200 (quick) generated linked frames per build covering tiny to maximal blocks, matches reaching one and many blocks back, offset 65535, stored blocks and the 128 KiB trim threshold, each read 8 ways; plus the reference encoder's linked golden file. The evidence counts the cross-block matches, offset-65535 matches and stored blocks that were actually decoded.",
+   ref="6/C16"),
+ "C18": dict(cat="exploration", tech="per-call contract monitor on the real CompressingReader plus the independent strict frame parser on the concatenated output; read sizes enumerated as all cyclic triples over boundary classes derived from the frame layout; source fault enumeration",
+   text="For 96 (source, options) bases every triple of read-size classes (including sizes that end exactly on a block-record boundary and sizes below the 7-byte header) is executed (all triples for sources up to 70000 bytes, seeded samples above), 400k patterns quick; each result must be one conforming frame for the source with no trailing bytes; every source call index is failed in turn.",
+   ref="6/C18"),
+ "C20": dict(cat="exploration", tech="end-to-end runtime monitoring of the lz4c binary built against the working tree: files through compress/uncompress in scratch directories, output parsed by the independent frame parser, header bits checked against the usage text, bytes compared with the library Writer, mode bits compared",
+   text="192 (quick) / 1500 (thorough) invocation cases over flag sets, file sizes on block boundaries, contents, mode bits, umasks, file and stdin/stdout operation and multi-file invocations.",
+   ref="6/C20"),
  "C05": dict(cat="exploration", tech="differential runtime monitoring on corrupted frames: whenever the real Reader ends cleanly, an independent frame parser is run on exactly the consumed bytes (counting source) and must accept them and yield the same output",
    text="Seed frames of the option combinations are corrupted by every single-bit flip of every structural field (with and without repairing the header checksum), block delete/duplicate/swap/insert/splice (with and without repairing the content checksum), payload flips (with and without repairing the block checksum), multi-bit flips, substitutions and hostile field values; each mutant is read with several concurrency/read-mode combinations. The evidence counts how many mutants the Reader accepted and that the oracle agreed on each.",
    ref="6/C05"),
